@@ -3544,7 +3544,11 @@ impl Deserialize for AbiTraitDefinition {
             match segment {
                 "Sync" => sync = true,
                 "Send" => send = true,
-                _ => panic!("Unexpected trait name encountered: {}", name),
+                _ => {
+                    return Err(SavefileError::GeneralError {
+                        msg: format!("Unexpected trait name encountered: {}", name),
+                    })
+                }
             }
         }
 
